@@ -114,10 +114,27 @@ func (c *ctx) has(kind string) bool {
 
 // generic: clauses that hold for every run with a tacquito server (C14: no panic).
 func (c *ctx) generic() {
+	// the server must not stop serving on its own: Serve returning before any
+	// cancellation, listener close or fatal accept error takes every client down
+	stopAsked := false
+	for _, e := range c.r.Events {
+		switch {
+		case e.Kind == "cancel" || e.Kind == "close-listener" || e.Kind == "drain":
+			stopAsked = true
+		case e.Kind == "accept-end" && e.S == "fatal":
+			stopAsked = true
+		case e.Kind == "serve-return" && !stopAsked:
+			c.v("C14/serve-exited-unasked", "Serve returned although its context was not cancelled and the listener was neither closed nor failed fatally: clients arriving later are not served")
+		}
+	}
 	for _, e := range c.r.Events {
 		if e.Kind == "published-mutated" {
 			c.v("C15/published-config-written", "configurations published to the server (indices %s) were written afterwards: serving requests or later loads modified a published value", e.S)
 			c.v("C16/published-config-modified", "configurations published to the server (indices %s) no longer equal their snapshot", e.S)
+		}
+		if e.Kind == "body-mutated" {
+			c.v("C05/body-changed-while-handled", "conn %d invocation %d: the request body the handler was given changed while the handler was running (another connection's traffic overwrote it)", e.Conn, e.A)
+			c.v("C09/body-changed-while-handled", "conn %d invocation %d: the request body the handler was given changed while the handler was running", e.Conn, e.A)
 		}
 		if e.Kind == "panic" {
 			first := e.S
